@@ -31,6 +31,8 @@ var reg = vk.Registry{"split": func(raw json.RawMessage) *vk.Violation {
 	return splitk.Boundaries(c, splitk.RunBatch(c))
 }}
 
+func init() { reg["sequence"] = vk.SequenceReplayer(reg) }
+
 func TestReplay(t *testing.T) { vk.RunReplay(t, reg) }
 
 func eval(t vk.TB, c splitk.Case, constructed bool) {
@@ -49,7 +51,14 @@ func eval(t vk.TB, c splitk.Case, constructed bool) {
 		}
 	}
 	rec.Sample(c.Proto, map[string]any{"proto": c.Proto, "coding": c.Coding, "note": c.Note, "text_bytes": len(c.Text) / 2, "parts": len(r.Parts)})
-	rec.Report(t, "split", splitk.Boundaries(c, r))
+	first := true
+	rec.ReportSeq(t, "split", c, func() *vk.Violation {
+		if first {
+			first = false
+			return splitk.Boundaries(c, r)
+		}
+		return splitk.Boundaries(c, splitk.Run(c))
+	})
 	if c.TextString() != "" {
 		rec.Eval()
 		if v := splitk.Boundaries(c, splitk.RunBatch(c)); v != nil {
